@@ -7,12 +7,17 @@ their public attributes (`observe`), wildcards being expanded with the tables of
 sub-checks
   roundtrip       (i)   parse(s) denotes ref(s); repr() denotes the same space for the reference
                         parser and for pharmpy's parser
-  algebra         (ii)  A+B, A-B, A==B, contain_subset, least_number_of_transformations on pairs
+  add, sub, eq    (ii)  A+B, A-B, A==B on pairs vs set union / difference / equality
+  eq_statement    (ii)  == of two TRANSITS statements is falsy when their counts differ
+  subset_lnt      (ii)  contain_subset, least_number_of_transformations on pairs of PK spaces
   model_vs_space  (ii)  the caller protocol of modelsearch: model features vs search space
   funcs           (iii) convert_to_funcs keys; (iv) all_combinations and exhaustive()
   stepwise        (v)   exhaustive_stepwise / reduced_stepwise trees vs documented rules
   sets            (vi)  partitions / subsets (exhaustive for n <= 6 + random element lists)
   iiv_builders    (vi)  td_exhaustive_no_of_etas / td_exhaustive_block_structure candidates
+
+Each operation of (ii) is its own sub-check (same pair generator) so that a known defect of one
+operation does not hide the other operations on the same pair.
 """
 
 from __future__ import annotations
@@ -526,11 +531,6 @@ def run_model_vs_space(spec):
 # (iii)+(iv) feature functions, all combinations, exhaustive
 
 
-def _fit_chain_ok(wf, task):
-    succ = wf.get_successors(task)
-    return len(succ) == 1
-
-
 def run_funcs(spec):
     from pharmpy.tools.mfl.helpers import all_combinations
     from pharmpy.tools.modelsearch.algorithms import create_candidate_exhaustive, exhaustive
@@ -596,6 +596,8 @@ def run_funcs(spec):
             raise Violation('exhaustive:functions-do-not-match-combination', observed=repr(t.task_input[1]))
         if wf.get_predecessors(t):
             raise Violation('exhaustive:candidate-not-created-from-input-model', observed=t.task_input[0])
+        if len(wf.get_successors(t)) != 1:
+            raise Violation('exhaustive:candidate-not-fitted-exactly-once', observed=t.task_input[0])
     if len(model_tasks) != len(cand):
         raise Violation('exhaustive:model-tasks', observed=len(model_tasks), expected=len(cand))
     evals += 1
@@ -1024,22 +1026,22 @@ PAIR = st.fixed_dictionaries(
 )
 MODEL_SPACE = st.fixed_dictionaries(dict(m=G.model_features(), s=st.one_of(G.space('pk', 1, 6), G.space('pk', 2, 6), G.space('algebra', 1, 6))))
 FUNCS = st.builds(lambda s, d: dict(s, drop=d), st.one_of(G.space('algebra', 1, 6), G.space('pk', 2, 6)), st.lists(st.integers(0, 20), max_size=4))
-STEPWISE = st.fixed_dictionaries(dict(s=G.space('pk', 2, 7), base=st.lists(st.integers(0, 5), min_size=5, max_size=5), alg=st.integers(0, 2)))
+STEPWISE = st.fixed_dictionaries(dict(s=G.space('pk', 3, 8), base=st.lists(st.integers(0, 5), min_size=5, max_size=5), alg=st.integers(0, 2)))
 SETS = st.fixed_dictionaries(dict(n=st.integers(0, 6), perm=st.lists(st.integers(0, 6), min_size=6, max_size=6), kind=st.integers(0, 1)))
 IIV = st.fixed_dictionaries(
     dict(n=st.integers(0, 5), cuts=st.lists(st.integers(0, 5), max_size=4), fixed=st.lists(st.integers(0, 3), max_size=2), offset=st.integers(0, 20))
 )
 
 SUBCHECKS = [
-    SubCheck('roundtrip', lambda: st.one_of(G.space('full', 1, 7), G.space('full', 3, 8)), run_roundtrip, quick=5000, thorough=200000),
-    SubCheck('add', lambda: PAIR, run_add, quick=2000, thorough=100000),
-    SubCheck('sub', lambda: PAIR, run_sub, quick=2000, thorough=100000),
-    SubCheck('eq', lambda: PAIR, run_eq, quick=2000, thorough=100000),
+    SubCheck('roundtrip', lambda: st.one_of(G.space('full', 1, 7), G.space('full', 3, 8)), run_roundtrip, quick=5000, thorough=150000),
+    SubCheck('add', lambda: PAIR, run_add, quick=2000, thorough=50000),
+    SubCheck('sub', lambda: PAIR, run_sub, quick=2000, thorough=50000),
+    SubCheck('eq', lambda: PAIR, run_eq, quick=2000, thorough=50000),
     SubCheck('eq_statement', lambda: PAIR, run_eq_statement, quick=300, thorough=5000),
-    SubCheck('subset_lnt', lambda: PAIR, run_subset, quick=2000, thorough=100000),
-    SubCheck('model_vs_space', lambda: MODEL_SPACE, run_model_vs_space, quick=1500, thorough=60000),
+    SubCheck('subset_lnt', lambda: PAIR, run_subset, quick=2000, thorough=50000),
+    SubCheck('model_vs_space', lambda: MODEL_SPACE, run_model_vs_space, quick=3000, thorough=60000),
     SubCheck('funcs', lambda: FUNCS, run_funcs, quick=800, thorough=30000),
-    SubCheck('stepwise', lambda: STEPWISE, run_stepwise, quick=400, thorough=12000),
+    SubCheck('stepwise', lambda: STEPWISE, run_stepwise, quick=300, thorough=6000),
     SubCheck('sets', lambda: SETS, run_sets, quick=150, thorough=3000, enumerate=enum_sets, describe='exhaustive for n<=6 (sorted and reversed input, string and int elements) + random orders'),
     SubCheck('iiv_builders', lambda: IIV, run_iiv_builders, quick=48, thorough=600, enumerate=enum_iiv, describe='n<=6 etas: diagonal, full block, mixed blocks, fixed etas'),
 ]
